@@ -105,7 +105,8 @@ FileMirrors(file, paths, objPrimary) ==
 \*     id: [sec, ms, seq, type], first: [sec, ms, seq, type], locs, warnings,
 \*     has_file, file: [path, inode, device, uid, gid], paths, obj_primary]
 JudgeEvent(o) ==
-    IF o.ret = "panic" THEN << [prop |-> "C15", why |-> "CoalesceMessages panicked", kind |-> "", expected |-> "", got |-> ""] >>
+    IF o.ret = "panic" THEN << [prop |-> "C15", why |-> "CoalesceMessages panicked", kind |-> "", expected |-> "", got |-> ""],
+                                CFlag("CoalesceMessages returned neither an event nor an error (it panicked)") >>
     ELSE LET n == Len(o.recs)      \* records after dropping a trailing EOE
              mustFail == n = 0 \/ (n > 1 /\ ~o.has_syscall)
          IN
